@@ -4,6 +4,7 @@ XrayModel/Core.lean; the search limit lives in the sequence engines).
 -/
 import XrayProofs.CoreLimits
 import XrayProofs.CoreLimitsSim
+import XrayProofs.CoreTco
 namespace XrayModel.C08
 open XrayModel.Core XrayModel.CoreLimits XrayModel.CoreLimitsSim
 
@@ -317,5 +318,36 @@ example : ∃ fr s, runProgram 10 { callLimit := some 2, depthLimit := some 2 } 
 -- and the non-violation hypothesis is needed: under call limit 1 the same program is stopped
 example : (runProgram 10 { callLimit := some 1 } progOneCall).1 = .error (.viol .calls) ∧
     ∃ fr, (runProgram 10 (noLimits { callLimit := some 1 }) progOneCall).1 = .ok fr := ⟨rfl, _, rfl⟩
+
+/-! ### 6. calls are counted per user call, not per tail iteration -/
+
+/-- The counter is advanced in exactly one place, `callUser` (`eval_func_with_values` entry), once
+per user call and before the trampoline starts; the trampoline itself never touches it: when the body
+ends with a tail call at state `st2`, the next iteration starts from exactly `st2` — same counter,
+same height `h` — and only the recursion counter grows (it is the recursion limit, `>`, that bounds
+the loop). -/
+theorem calls_counted_per_user_call_not_per_tail_iteration (fuel : Nat) (cfg : Cfg) (h : Nat) (f : Func)
+    (dflts : List Val) (env ps : List (String × Val)) (args newArgs : List Val) (rec : Nat) (st st1 st2 : St)
+    (fr' : Frame) (l : Nat) (hl : cfg.callLimit = some l) (he : firstErr args = none)
+    (hd : depthOk cfg h) (hb : bindParams f.params args dflts = some ps)
+    (hdecl : evalDecls fuel cfg (callFrame h f dflts env ps) f.decls st = (.ok fr', st1))
+    (hbody : eval fuel cfg fr' f.body true st1 = (.tail newArgs, st2)) (hr : recOk cfg (rec + 1)) :
+    (st.calls + 1 < l → callUser (fuel + 1) cfg h (.clos f dflts env) args st
+        = tramp fuel cfg h (.clos f dflts env) args 0 { st with calls := st.calls + 1 }) ∧
+    tramp (fuel + 1) cfg h (.clos f dflts env) args rec st
+        = tramp fuel cfg h (.clos f dflts env) newArgs (rec + 1) st2 :=
+  ⟨(call_limit_exact fuel cfg h _ args st l hl he).2,
+   (tramp_body_tail fuel cfg h f dflts env ps args newArgs rec st st1 st2 fr' hd hb hdecl hbody).1 hr⟩
+
+/-- For every iteration count `n`: the accumulator loop `fn f(n, acc) { if(n == 0, acc, f(n-1, acc+n)) }`
+called under a call limit `l` (and any depth limit admitting one frame) counts **one** call, whatever
+`n`: the final counter is `st.calls + 1` after `n` tail iterations (`n` within the recursion limit). -/
+theorem tail_iterations_not_counted (cfg : Cfg) (htco : cfg.tco = true) (h : Nat) (hd : depthOk cfg h)
+    (n : Nat) (acc : Int) (st : St) (k l : Nat) (hl : cfg.callLimit = some l) (hc : st.calls + 1 < l)
+    (hr : recOk cfg n) :
+    (callUser (k + 16 + n) cfg h sumClos [.int n, .int acc] st).2.calls = st.calls + 1 := by
+  have := (sum_call cfg htco h hd n acc st k (by intro l' hl'; rw [hl] at hl'; cases hl'; exact hc)).1 hr
+  rw [this]
+  simp [hl]
 
 end XrayModel.C08
